@@ -18,11 +18,9 @@ Check C11_stream_length : forall d1 body1 d2 body2 a b id gen,
     1 + ddepth d1 <= MAX_DEPTH -> 1 + ddepth d2 <= MAX_DEPTH -> stream_eol eol ->
     forall s s2 s3 s4 s5 t t2 t3 t4 t5,
     Lexes s (IWord a :: IWord b :: IWord kw_obj :: IWord kw_dict_open :: body1 ++ [IWord kw_dict_close]) s2 ->
-    (forall s0, Lexes s0 (IWord kw_dict_open :: body1 ++ [IWord kw_dict_close]) s2 -> (length body1 + 2 <= fuel_for s0)%nat) ->
     next s2 = Ok (kw_stream, s3) -> lrest s3 = eol ++ data ++ rest ->
     next_expect (mkLx (lpos s3 + lenN eol + lenN data) rest) kw_endstream = Ok s4 -> next_expect s4 kw_endobj = Ok s5 ->
     Lexes t (IWord a :: IWord b :: IWord kw_obj :: IWord kw_dict_open :: body2 ++ [IWord kw_dict_close]) t2 ->
-    (forall s0, Lexes s0 (IWord kw_dict_open :: body2 ++ [IWord kw_dict_close]) t2 -> (length body2 + 2 <= fuel_for s0)%nat) ->
     next t2 = Ok (kw_stream, t3) -> lrest t3 = eol ++ data ++ rest ->
     next_expect (mkLx (lpos t3 + lenN eol + lenN data) rest) kw_endstream = Ok t4 -> next_expect t4 kw_endobj = Ok t5 ->
     exists st1 st2,
